@@ -294,7 +294,7 @@ func ruleC07Deleg(e *Env) {
 	T := func(p string) string { return a.canonTime(p) }
 	check(e.Method(rule, "date", "Date", "Time"), "Time", T("d"), d)
 	check(e.Method(rule, "date", "Date", "Sub"), "Sub", "(time.Time).Sub("+T("d")+","+T("e")+")", d, x)
-	check(e.Method(rule, "date", "Date", "DaysBetween"), "DaysBetween", "/((time.Duration).Hours((time.Time).Sub("+T("d")+","+T("e")+")),24)", d, x)
+	check(e.Method(rule, "date", "Date", "DaysBetween"), "DaysBetween", "conv[int](/((time.Duration).Hours((time.Time).Sub("+T("d")+","+T("e")+")),24))", d, x)
 	check(e.Method(rule, "date", "Date", "Add"), "Add", "FromTime((time.Time).AddDate("+T("d")+",years,months,days))", d, pred.Sym{Name: "years"}, pred.Sym{Name: "months"}, pred.Sym{Name: "days"})
 	check(e.Method(rule, "date", "Date", "AddDuration"), "AddDuration", "FromTime((time.Time).Add("+T("d")+",duration))", d, pred.Sym{Name: "duration"})
 	check(e.Fn(rule, "date", "New"), "New", "FromTime(time.Date(year,month,day,0,0,0,0,*time.UTC))", pred.Sym{Name: "year"}, pred.Sym{Name: "month"}, pred.Sym{Name: "day"})
